@@ -8,7 +8,7 @@ CFG = dict(
     kinds={"gens": ("gens_case", "check_gens")},
     known_classes={},
     shard=3,
-    rule="seeded mixes of begin / lock + vote (in any order, duplicates, late votes, votes for unknown ids) / commit / abort / complete_* / cleanup_timeouts over 1-4 transactions on a real DistributedTxCoordinator with a TxWal (clock through the guarded hook 317762a3); the real log truncated at EVERY byte offset of each generation's appends; coordinator restarted (with_wal + recover_from_wal), every transaction driven to its natural completion, timeout sweeper run 6 s later; up to three crash generations",
+    rule="seeded mixes of begin / lock + vote (in any order, duplicates, late votes, votes for unknown ids) / commit / abort / complete_* / cleanup_timeouts / further recover_from_wal() calls on the live coordinator over 1-4 transactions on a real DistributedTxCoordinator with a TxWal (clock through the guarded hook 317762a3); the real log truncated at EVERY byte offset of each generation's appends; coordinator restarted (with_wal + recover_from_wal), every transaction driven to its natural completion, timeout sweeper run 6 s later; up to three crash generations",
     trusted_base=COMMON_TB + [
         "modelled, not verified: bitcode payload (de)serialisation (premise deser (ser e) = Some e; the harness supplies the real payload bytes and decodes the real log with the real deserializer for the oracle), crc32fast (concrete Gallina CRC-32 compared byte-for-byte with every real log file), the file system below 'a file is a byte string; a crash keeps a prefix of unsynced appends'; the order in which commit() logs the lock releases (HashMap iteration) is an input of the model step; guarded clock hook verif_clock (commit 317762a3)",
     ],
